@@ -8,6 +8,7 @@
 import base64
 import hashlib
 import hmac as _hmac
+import random
 import struct
 
 from tools.vlib import *
@@ -165,7 +166,7 @@ class Chunk:
         self.shards = [(i + 1, self.key) for i in range(n)]
         self.exp_s = exp_s
 
-    def uri(self, *, shards=None, thr=None, tot=None, exp_s=None, cid=None, version=4, cut=None, extra=b"") -> bytes:
+    def uri(self, *, shards=None, thr=None, tot=None, exp_s=None, cid=None, version=4, cut=None, extra=b"", disc=()) -> bytes:
         shards = self.shards if shards is None else shards
         p = bytearray([version]) + (cid or self.cid) + self.hash + self.nonce
         p += struct.pack(">Q", (self.exp_s if exp_s is None else exp_s) % (1 << 64))
@@ -175,7 +176,11 @@ class Chunk:
         if version >= 2:
             p += bytes([0])                       # metadata count
         if version >= 3:
-            p += bytes([0])                       # discovery hints
+            p += bytes([len(disc) & 0xFF])        # discovery hints: (scheme, transport, endpoint, priority)
+            for sch, tr, ep, prio in disc:
+                if version >= 4:
+                    p += bytes([len(sch) & 0xFF]) + sch
+                p += bytes([len(tr) & 0xFF]) + tr + struct.pack(">H", len(ep) & 0xFFFF) + ep + bytes([prio & 0xFF])
             p += bytes([0]) + b"\x00\x00" + bytes([0])   # security: token bits, advisory length, digest flag
             p += bytes([0])                       # fallback hints
         p += extra
@@ -469,6 +474,64 @@ def case_control(rng, big=False) -> Case:
     return Case(ops=ops, tag="control")
 
 
+# numeric strings for every std::stoul the extractor lists as reachable from remote input (the two parse_endpoint
+# functions: announce endpoints, relay hints of manifests): lengths 1/5/6/19/20/21/40, the 16/32/64-bit edges, signs,
+# white space, junk.  Hosts are loopback only and the ports that parse are closed ones: the node really dials them.
+PORTS = [b"9", b"1", b"0", b"65535", b"65536", b"99999", b"123456", b"4294967295", b"4294967296", b"9999999999999999999",
+         b"18446744073709551615", b"18446744073709551616", b"99999999999999999999", b"123456789012345678901",
+         b"1234567890123456789012345678901234567890", b"-1", b"-9", b"-18446744073709551616", b"+9", b" 9", b"9x", b"", b"abc",
+         b"0x10", b"9 9", b"\x009"]
+
+
+def rand_endpoint(rng, overflow_bias=0.0) -> bytes:
+    if rng.random() < overflow_bias:
+        port = rng.choice([b"18446744073709551616", b"123456789012345678901", b"1234567890123456789012345678901234567890",
+                           b"-18446744073709551616", b"99999999999999999999"])
+    else:
+        port = rng.choice(PORTS)
+    r = rng.random()
+    if r < 0.8:
+        return b"127.0.0.1:" + port
+    if r < 0.85:
+        return b":" + port
+    if r < 0.9:
+        return b"127.0.0.1" + port                 # no colon
+    if r < 0.95:
+        return b"::1:" + port                      # last colon counts for the node, first for the relay client
+    return b"127.0.0.1:" + port + b":" + rng.choice(PORTS)
+
+
+def case_endpoint(rng, big=False, forced=None) -> Case:
+    """An ANNOUNCE with an assigned shard for a chunk the node does not hold makes the node remember the announced
+    endpoint; once the announcer has no live session the fetch retry of a later tick dials it (and the relay hints of
+    the manifest): dispatch_pending_fetch -> parse_endpoint -> std::stoul on the main loop."""
+    relay = rng.random() < 0.6
+    ops = ["cfg relay=1"] if relay else []
+    pops, keys = _peer_ops(rng, ["p1", "p2"])
+    ops += pops
+    tags = []
+    for k in range(rng.randint(1, 3 if big else 2)):
+        thr, n = rng.choice([(1, 1), (2, 3), (3, 5)])
+        c = Chunk(rng, f"c{k + 1}", rng.choice([16, 64]), thr, n, WALL0_S + 3600)
+        disc = []
+        for _ in range(rng.choice([0, 0, 1, 2])):
+            tr = rng.choice([b"relay", b"relay", b"tcp", b""])
+            ep = rand_endpoint(rng, 0.3) + rng.choice([b"", b"", b"?peer=" + id32("p1").hex().encode(), b"?x"])
+            disc.append((rng.choice([b"relay", b"", b"tcp"]), tr, ep, rng.randrange(256)))
+        p = rng.choice(["p1", "p2"])
+        ep = forced if forced is not None else rand_endpoint(rng, 0.35)
+        assigned = bytes([rng.randrange(1, n + 1)]) if rng.random() < 0.9 else b""
+        ops.append(f"frame {p} {hx(sign(keys[p], m_announce(c.cid, id32(p), c.uri(disc=disc), endpoint=ep, shards=assigned)))}")
+        tags.append("port" + str(len(ep.rsplit(b':', 1)[-1])) if b":" in ep else "nocolon")
+    # the announcer's session is gone after its frame; first retry after fetch_retry_success_interval (15 s), then back-off
+    ops.append(f"adv {rng.choice([15, 16, 20]) * NS}")
+    ops.append("tick")
+    for _ in range(rng.choice([0, 1, 2, 5])):
+        ops.append(f"adv {rng.choice([1, 3, 7, 13, 61]) * NS}")
+        ops.append("tick")
+    return Case(ops=ops, tag="endpoint:" + ("relay" if relay else "direct"))
+
+
 KNOWN = ["announce-chunk-dup", "fetch-dup", "fetch-empty-out"]
 
 
@@ -479,8 +542,13 @@ def generate(ctx, budget):
     # real accept threads on loopback: a silent / never-reading client ahead of a well-behaved one (~4 s of real time:
     # kHandshakeTimeout is a compile-time 2 s; the control timeout is shortened to 300 ms through the Impl member)
     cases.append(Case(ops=["rt stall"], tag="real-threads:stall"))
+    # the witness of the seeded change: a 30-digit port, then the retry from tick
+    cases.append(case_endpoint(random.Random("C35-endpoint-overflow"), forced=b"127.0.0.1:123456789012345678901234567890"))
     for i in range(budget):
         r = i % 10
+        if i % 5 == 4:
+            cases.append(case_endpoint(rng, big and i % 3 == 0))
+            continue
         if r < 4:
             cases.append(case_manifest(rng, big and i % 3 == 0))
         elif r < 6:
@@ -505,7 +573,9 @@ def nontrivial(r: CaseResult) -> bool:
             return True
         if " held=1" in line or " acc=1" in line or "/OK_" in line:
             return True
-        if line.startswith("ok link=") or line.startswith("ok ctl-second="):
+        if line.startswith("ok link=") or " ctl-second=" in line:
+            return True
+        if " due=" in line and " due=-" not in line:
             return True
     return False
 
@@ -538,6 +608,10 @@ def post(ctx, results):
             if " resp=" in line:
                 k3 = "ctl:" + line.split(" resp=", 1)[1].split(" ")[0]
                 h[k3] = h.get(k3, 0) + 1
+            if " due=" in line:
+                d = line.split(" due=", 1)[1].split(" ")[0]
+                k6 = "tick:dials=" + ("0" if d == "-" else str(len(d.split(","))))
+                h[k6] = h.get(k6, 0) + 1
             if " acc=" in line:
                 k4 = "handshake:accepted=" + line.split(" acc=", 1)[1].split(" ")[0]
                 h[k4] = h.get(k4, 0) + 1
@@ -586,7 +660,9 @@ def spec() -> Spec:
              "duplicate/zero indices inside and beyond the threshold, threshold 0 / > count, no shards, expiries, wrong id, truncated, garbage, "
              "old versions, 255 shards, trailing bytes) for chunks held / not held, then control FETCH of the same; every message type x "
              "truncation / bit flip / version / type / length-field mutation, signed with the right key, another key, or unsigned; raw garbage on "
-             "an established session (length fields around 1 MiB); pre-handshake byte streams; control requests with non-numeric / overflowing / "
+             "an established session (length fields around 1 MiB); ANNOUNCE with an assigned shard and an endpoint / relay hints whose "
+             "port text is 1..40 digits, at the 16/32/64-bit edges, signed, spaced or junk, followed by clock advances and ticks that make the "
+             "node dial it; pre-handshake byte streams; control requests with non-numeric / overflowing / "
              "negative numeric headers, missing headers, 16 KiB lines, truncated payloads, unwritable and empty OUT paths; distinct = sha256 of the "
              "op list; non-trivial = some delivery reached a cached manifest, a held chunk, an accepted handshake or an executed control command",
         trusted_base=["props/C35_extract.py (clang-14 JSON AST -> call sites x enclosing try blocks; lambdas passed as arguments run where written; "
